@@ -462,6 +462,11 @@ thread_local! {
     static IMG_DIR: RefCell<Option<tempfile::TempDir>> = const { RefCell::new(None) };
 }
 
+/// remove the calling thread's image directory (process::exit runs no destructors)
+pub fn cleanup_thread() {
+    IMG_DIR.with(|d| *d.borrow_mut() = None);
+}
+
 /// a fresh, empty directory for one image (per thread, reused name space)
 fn with_image_dir<T>(f: impl FnOnce(&Path) -> T) -> T {
     IMG_DIR.with(|d| {
@@ -552,8 +557,10 @@ fn run_history<R: Routine>(h: &R::Hist) -> Result<Recording, String> {
 }
 
 /// Enumerate all crash points x all images of one history.
-/// `stop_at`: stop at the first unlisted failure (used while shrinking).
-pub fn eval_history<R: Routine>(h: &R::Hist, known: &Known, stop_at_first: bool) -> HistOutcome<R::Hist> {
+/// `shrink_target`: while shrinking, only failures with that key count and the
+/// enumeration stops at the first one.
+pub fn eval_history<R: Routine>(h: &R::Hist, known: &Known, shrink_target: Option<&str>) -> HistOutcome<R::Hist> {
+    let stop_at_first = shrink_target.is_some();
     let mut st = Stats::default();
     let mut fails: Vec<Fail<R::Hist>> = Vec::new();
     st.histories = 1;
@@ -584,6 +591,9 @@ pub fn eval_history<R: Routine>(h: &R::Hist, known: &Known, stop_at_first: bool)
     let record_fail = |fails: &mut Vec<Fail<R::Hist>>, st: &mut Stats, key: String, msg: String, snap: &Snapshot, kind: &ImageKind| {
         if known.is_open(&key) {
             *st.known.entry(key).or_default() += 1;
+            return false;
+        }
+        if shrink_target.is_some_and(|t| t != key) {
             return false;
         }
         if !fails.iter().any(|f| f.key == key) {
@@ -742,7 +752,9 @@ pub fn run_section<R: Routine>(ck: &mut Check, histories: u64, shards: usize) ->
                 std::process::exit(2);
             }
         };
-        match replay_one::<R>(&case) {
+        let r = replay_one::<R>(&case);
+        cleanup_thread();
+        match r {
             Ok(f) => ck.conclude_replay(&path, f),
             Err(e) => {
                 eprintln!("replay cannot be re-executed: {e}");
@@ -786,6 +798,8 @@ pub fn run_section<R: Routine>(ck: &mut Check, histories: u64, shards: usize) ->
         }
     }
 
+    cleanup_thread();
+
     // 2. generated histories
     let shards = shards.min(histories.max(1) as usize).max(1);
     let per = histories.div_ceil(shards as u64);
@@ -801,25 +815,27 @@ pub fn run_section<R: Routine>(ck: &mut Check, histories: u64, shards: usize) ->
                 let cfg = Config {
                     cases: per as u32,
                     failure_persistence: None,
-                    max_shrink_iters: 120,
+                    max_shrink_iters: 1500,
                     rng_seed: RngSeed::Fixed(shard_seed(id, R::NAME, seed, shard)),
                     rng_algorithm: RngAlgorithm::ChaCha,
                     ..Config::default()
                 };
                 let mut runner = TestRunner::new(cfg);
                 let strat = R::strategy();
-                let failed_once = std::cell::Cell::new(false);
+                let target: RefCell<Option<String>> = RefCell::new(None);
                 let local = RefCell::new(Stats::default());
                 let res = runner.run(&strat, |h| {
-                    let shrinking = failed_once.get();
-                    let out = eval_history::<R>(&h, known, shrinking);
-                    if !shrinking {
+                    let t = target.borrow().clone();
+                    let out = eval_history::<R>(&h, known, t.as_deref());
+                    if t.is_none() {
                         local.borrow_mut().merge(out.stats);
                     }
                     match out.fails.first() {
                         None => Ok(()),
                         Some(f) => {
-                            failed_once.set(true);
+                            if t.is_none() {
+                                *target.borrow_mut() = Some(f.key.clone());
+                            }
                             Err(TestCaseError::fail(f.key.clone()))
                         }
                     }
@@ -829,7 +845,7 @@ pub fn run_section<R: Routine>(ck: &mut Check, histories: u64, shards: usize) ->
                 match res {
                     Ok(()) => {}
                     Err(TestError::Fail(_, minimal)) => {
-                        let out = eval_history::<R>(&minimal, known, false);
+                        let out = eval_history::<R>(&minimal, known, None);
                         if out.fails.is_empty() {
                             g.2.push(format!("section {}: failure did not reproduce on the shrunk history {:?}", R::NAME, minimal));
                         }
